@@ -39,7 +39,7 @@ class Gen:
     """random component factory; keeps an estimate of every component's output voltage so that
     parameters stay in a physically sensible range"""
 
-    def __init__(self, rng, tables=0.25, neg=0.15, zero_src=0.0, limits=None, small_rs=False, overload=0.0):
+    def __init__(self, rng, tables=0.25, neg=0.15, zero_src=0.0, limits=None, small_rs=False, overload=0.0, negphase=0.15):
         self.rng = rng
         self.vest = {}
         self.p_tables = tables
@@ -47,6 +47,7 @@ class Gen:
         self.p_zero = zero_src
         self.limits = limits
         self.small_rs = small_rs
+        self.negphase = negphase     # probability that an ILoad phase current is written with a minus sign
         self.overload = overload     # probability that a component is made an overload (huge load / series resistance)
 
     def vin_of(self, parents):
@@ -157,7 +158,7 @@ class Gen:
         if cls == "ILoad":
             # a current written with a minus sign is a magnitude, as in the constructor (only ILoad: the sign of a
             # phase power / resistance is outside the modelled inputs)
-            return _r(_lg(rng, 1e-6, 0.3), 4) * (-1.0 if rng.random() < 0.15 else 1.0)
+            return _r(_lg(rng, 1e-6, 0.3), 4) * (-1.0 if rng.random() < self.negphase else 1.0)
         return _r(_lg(rng, 20, 1e5), 4)
 
 
